@@ -35,7 +35,6 @@ func NewServer(parse ParseFn, options ...OptionFn) (*Server, error) {
 		parse:      parse,
 		logger:     slog.Default(),
 		closer:     make(chan struct{}),
-		types:      pgtype.NewMap(),
 		Statements: DefaultStatementCacheFn,
 		Portals:    DefaultPortalCacheFn,
 		Session:    func(ctx context.Context) (context.Context, error) { return ctx, nil },
@@ -56,7 +55,7 @@ type Server struct {
 	closing         atomic.Bool
 	wg              sync.WaitGroup
 	logger          *slog.Logger
-	types           *pgtype.Map
+	typeExtensions  []func(*pgtype.Map)
 	Auth            AuthStrategy
 	BufferedMsgSize int
 	Parameters      Parameters
@@ -123,7 +122,7 @@ func (srv *Server) Serve(listener net.Listener) error {
 }
 
 func (srv *Server) serve(ctx context.Context, conn net.Conn) error {
-	ctx = setTypeInfo(ctx, srv.types)
+	ctx = setTypeInfo(ctx, srv.newTypeMap())
 	ctx = setRemoteAddress(ctx, conn.RemoteAddr())
 	defer conn.Close()
 
@@ -170,6 +169,18 @@ func (srv *Server) serve(ctx context.Context, conn net.Conn) error {
 	}
 
 	return session.consumeCommands(ctx, conn, reader, writer)
+}
+
+// newTypeMap constructs the type map of a single connection. A pgtype.Map caches
+// encode and scan plans without any synchronisation and therefore must not be
+// shared between the goroutines serving different connections.
+func (srv *Server) newTypeMap() *pgtype.Map {
+	types := pgtype.NewMap()
+	for _, extend := range srv.typeExtensions {
+		extend(types)
+	}
+
+	return types
 }
 
 // Close gracefully closes the underlaying Postgres server.
